@@ -1043,4 +1043,65 @@ rewrite cex2_Geff0 cex2_Heff0 (brain_cv0 cex2_ok (oner_neq0 _) Hbv) mul0r big_se
 rewrite !mulf_eq0 invr_eq0 /zR !intr_eq0 -/(BinInt.Z.pow 10 6) /=.
 by lia.
 Qed.
+(* ---- the Z-level side condition of Properties/C03.v implies the non-zero constant terms ---- *)
+Definition tailv (wm : bool) (i : iso) : R :=
+  mul NR (if wm then micro NR (mass i) else one NR) (micro NR (ab i)).
+Definition tail_inv (wm : bool) (acc : seq R) (lst : option iso) : Prop :=
+  match lst with None => acc = [::] | Some i => (0 < size acc)%N /\ last 0 acc = tailv wm i end.
+
+Lemma coeffs_loop_tail e wm l acc lst r :
+  coeffs_loop NR e wm l acc = Some r -> tail_inv wm acc lst -> tail_inv wm r (tail_loop e l lst).
+Proof.
+elim: l acc lst => [|i l IH] acc lst /=; first by case=> <-.
+case: BinInt.Z.ltb => //; case: assoc_get => [iso|]; last exact: IH.
+case: BinInt.Z.ltb => //; case: Nat.compare => // /IH H _; apply: H; rewrite /tail_inv !stdE.
+  by rewrite size_cat last_cat /= addn1.
+by rewrite !size_cat !last_cat /= addn1 addnS.
+Qed.
+
+Lemma zR_pos_neq0 z : BinInt.Z.lt BinNums.Z0 z -> zR R z != 0.
+Proof. by move=> z0; rewrite /zR intr_eq0; lia. Qed.
+
+Lemma micro_pos_neq0 z : BinInt.Z.lt BinNums.Z0 z -> micro NR z != 0.
+Proof.
+by move=> z0; rewrite /micro /= mulf_neq0 ?invr_eq0 ?zR_pos_neq0.
+Qed.
+
+Lemma elem_tail_pos_nz e : elem_tail_pos e = true -> brain_elem_ok e = true ->
+  (qpoly R e false)`_0 != 0 /\ (qpoly R e true)`_0 != 0.
+Proof.
+rewrite /elem_tail_pos => Ht /brain_elem_okP[ca [cb [Ha Hb _ _ _]]].
+case Et : tail_loop Ht => [i|//] /andP[/BinInt.Z.ltb_lt ab0 /BinInt.Z.ltb_lt ms0].
+have Hq wm cc : coeffs NR e wm = Some cc -> (qpoly R e wm)`_0 = tailv wm i.
+  move=> Hc; have := @coeffs_loop_tail e wm _ [::] None cc Hc erefl.
+  rewrite Et /qpoly Hc coef_Poly => -[sz <-].
+  by rewrite nth_rev // subn1 nth_last.
+rewrite (Hq _ _ Ha) (Hq _ _ Hb) /tailv !numE mul1r.
+by split; [exact: micro_pos_neq0 | apply: mulf_neq0; exact: micro_pos_neq0].
+Qed.
+
+Lemma bcomp_pos_nz (c : bcomp) : bcomp_ok c = true -> bcomp_pos c = true ->
+  forall x, List.In x c -> (qpoly R x.1 false)`_0 != 0 /\ (qpoly R x.1 true)`_0 != 0.
+Proof.
+move=> /andP[/List.forallb_forall Hok _] /List.forallb_forall Hpos x Hx.
+by apply: elem_tail_pos_nz; [apply: Hpos | have /andP[] := Hok x Hx].
+Qed.
+
+Lemma brain_prob : forall (c : bcomp) (order_req : BinNums.Z) (base : R) o pv cv,
+  bcomp_ok c = true -> bcomp_pos c = true ->
+  brain_vectors NR c order_req base = Some (o, pv, cv) ->
+  forall k, (k <= o)%N -> nth 0 pv k = base * (Geff R c)`_k.
+Proof.
+move=> c order_req base o pv cv cok cpos; apply: brain_prob_nz => // x Hx.
+by have [] := bcomp_pos_nz cok cpos Hx.
+Qed.
+
+Lemma brain_center : forall (c : bcomp) (order_req : BinNums.Z) (base : R) o pv cv,
+  bcomp_ok c = true -> bcomp_pos c = true -> base != 0 ->
+  brain_vectors NR c order_req base = Some (o, pv, cv) ->
+  forall k, (k <= o)%N -> (Geff R c)`_k != 0 -> nth 0 cv k = (Heff R c)`_k / (Geff R c)`_k.
+Proof.
+move=> c order_req base o pv cv cok cpos b0; apply: brain_center_nz => // x Hx;
+by have [] := bcomp_pos_nz cok cpos Hx.
+Qed.
 End Alg.
